@@ -1051,9 +1051,11 @@ def _read_fstr(ctx: ReaderContext) -> str | llist.PersistentList:
             reader.next_char()
             elems.append("".join(s))
             s = []
-            expr = _read_next(ctx)
+            expr = _read_owed_form(ctx, "the opening brace of an f-string expression")
             elems.append(expr)
             char = _consume_whitespace(ctx)
+            if char == "":
+                raise ctx.eof_error("Unexpected EOF in f-string expression")
             if char != "}":
                 raise ctx.syntax_error("Expected single expression in f-string")
             continue
